@@ -30,6 +30,19 @@ RECURSIVE SumW(_)
 SumW(S) == IF S = {} THEN 0 ELSE LET k == CHOOSE k \in S : TRUE IN lines[k] + SumW(S \ {k})
 Weight(u, v) == SumW({k \in Keys : k[1] = Norm(u, v)[1] /\ k[2] = Norm(u, v)[2]})
 LineList == {<<k[1], k[2], k[3], lines[k]>> : k \in Keys}
+
+(************************ returned edge and line VALUES ***********************)
+\* Edge(u, v) / WeightedEdge(u, v) / EdgeBetween / WeightedEdgeBetween and the items of Edges() /
+\* WeightedEdges() return a VALUE (multi.Edge, multi.WeightedEdge) for a joined pair: its ends, an
+\* iterator over the lines of the pair (EdgeValue.tla is its state machine) and, for the weighted
+\* types, Weight() = the sum of the line weights ("If WeightFunc is nil, the sum of weights is used
+\* as the edge weight").  ReversedEdge returns a value with the ends swapped ("The Lines within the
+\* WeightedEdge are not altered").  A line VALUE (multi.Line, multi.WeightedLine) has ends, an id
+\* and a weight; ReversedLine swaps the ends, "The UID and W of the new Line are the same".
+EdgeVal(u, v)    == [f |-> u, t |-> v, ids |-> Lines(u, v), w |-> Weight(u, v)]   \* defined iff HasFromTo(u, v)
+RevEdgeVal(e)    == [f |-> e.t, t |-> e.f, ids |-> e.ids, w |-> e.w]
+LineVal(u, v, i) == [f |-> u, t |-> v, i |-> i, w |-> lines[K(u, v, i)]]          \* defined iff i \in Lines(u, v)
+RevLineVal(l)    == [f |-> l.t, t |-> l.f, i |-> l.i, w |-> l.w]
 EdgePairs == {<<k[1], k[2]>> : k \in Keys}
 
 (******************************** mutators **********************************)
@@ -77,6 +90,20 @@ Closed == \A k \in Keys : k[1] \in nodes /\ k[2] \in nodes
 Canon  == \A k \in Keys : Norm(k[1], k[2]) = <<k[1], k[2]>>
 Mirror == \A u, v \in U : (v \in From(u)) = (u \in To(v))
 Symm   == ~Directed => \A u, v \in U : Lines(u, v) = Lines(v, u)
+\* reversing twice gives the value back; ids and weights survive a reversal; in an undirected graph the
+\* reversal of the edge / line asked for as (u, v) is the value asked for as (v, u)
+RevLaw == \A u, v \in U : HasFromTo(u, v) =>
+            /\ RevEdgeVal(RevEdgeVal(EdgeVal(u, v))) = EdgeVal(u, v)
+            /\ RevEdgeVal(EdgeVal(u, v)).w = Weight(u, v)
+            /\ (~Directed => RevEdgeVal(EdgeVal(u, v)) = EdgeVal(v, u))
+            /\ \A i \in Lines(u, v) :
+                  /\ RevLineVal(RevLineVal(LineVal(u, v, i))) = LineVal(u, v, i)
+                  /\ (~Directed => RevLineVal(LineVal(u, v, i)) = LineVal(v, u, i))
+\* the weight of an edge value is the sum over exactly the line values of the pair
+RECURSIVE SumLV(_)
+SumLV(S) == IF S = {} THEN 0 ELSE LET l == CHOOSE l \in S : TRUE IN l.w + SumLV(S \ {l})
+EdgeWeightLaw == \A u, v \in U : HasFromTo(u, v) =>
+                    EdgeVal(u, v).w = SumLV({LineVal(u, v, i) : i \in Lines(u, v)})
 PanicLeavesUnchanged == [][last' = "panic" => UNCHANGED <<nodes, lines>>]_vars
 RemoveNodeExact == [][\A n \in IDs : (n \in nodes /\ n \notin nodes') =>
                         /\ nodes' = nodes \ {n}
@@ -87,6 +114,13 @@ EmitState ==
       from |-> [u \in IDs |-> From(u)], to |-> [u \in IDs |-> To(u)],
       heft |-> {<<u, v>> \in IDs \X IDs : HasFromTo(u, v)},
       heb  |-> {<<u, v>> \in IDs \X IDs : HasBetween(u, v)},
-      lids |-> {[u |-> u, v |-> v, ids |-> Lines(u, v), w |-> Weight(u, v)] : u \in IDs, v \in IDs},
+      \* per ordered pair: the edge value (line ids, weight), the ends of its ReversedEdge, and each
+\* line value with the value its ReversedLine must be
+      lids |-> {[u |-> u, v |-> v, ids |-> Lines(u, v), w |-> Weight(u, v),
+                 rf |-> RevEdgeVal(EdgeVal(u, v)).f, rt |-> RevEdgeVal(EdgeVal(u, v)).t,
+                 lv |-> {[i |-> i, w |-> LineVal(u, v, i).w,
+                          rf |-> RevLineVal(LineVal(u, v, i)).f, rt |-> RevLineVal(LineVal(u, v, i)).t,
+                          ri |-> RevLineVal(LineVal(u, v, i)).i, rw |-> RevLineVal(LineVal(u, v, i)).w]
+                         : i \in Lines(u, v)}] : u \in IDs, v \in IDs},
       pairs |-> EdgePairs]))
 =============================================================================
